@@ -70,11 +70,16 @@ class Sched:
 
     # ---- one execution -------------------------------------------------------------------------------------------
     def start(self):
-        rwmod.threading = FakeThreading
+        # the module is executed afresh with `threading` replaced, so that locks created in the class body or at module
+        # level (not only those made in __init__) are controlled locks too, and none survives from the previous execution
         FakeLock.sched = self
+        real = sys.modules["threading"]
+        sys.modules["threading"] = FakeThreading
         try:
+            importlib.reload(rwmod)
             self.lock = rwmod.RWLock()
         finally:
+            sys.modules["threading"] = real
             rwmod.threading = threading
         self.pos = [("start", 0)] * self.n
         self.status = ["ready"] * self.n      # ready | blocked | done | error
@@ -162,13 +167,13 @@ class Sched:
         d = self.lock.__dict__
         rs, ws = d["_RWLock__read_switch"], d["_RWLock__write_switch"]
         return [d["_RWLock__readers_queue"], d["_RWLock__no_readers"], d["_RWLock__no_writers"],
-                rs.__dict__["_LightSwitch__mutex"], ws.__dict__["_LightSwitch__mutex"]]
+                getattr(rs, "_LightSwitch__mutex"), getattr(ws, "_LightSwitch__mutex")]
 
     def state(self):
         d = self.lock.__dict__
         rs, ws = d["_RWLock__read_switch"], d["_RWLock__write_switch"]
         return (tuple(self.pos), tuple(int(lk.locked) for lk in self._locks()),
-                rs.__dict__["_LightSwitch__counter"], ws.__dict__["_LightSwitch__counter"],
+                getattr(rs, "_LightSwitch__counter"), getattr(ws, "_LightSwitch__counter"),
                 tuple(e for e in self.error))
 
     def replay(self, path):
